@@ -2,6 +2,8 @@
 
 package pubsub
 
+import "sync"
+
 // VerifHook is installed by the conformance harness (build tag verif)
 // before any goroutine is started. verifAt names a yield point; it
 // carries no claim about what the surrounding code did.
@@ -11,4 +13,39 @@ func verifAt(point string) {
 	if h := VerifHook; h != nil {
 		h(point)
 	}
+}
+
+// VerifGuardHook is installed by the conformance harness (property
+// C13) before any goroutine is started. verifGuard marks the entry of
+// a function whose contract is "the caller holds the lock"; the
+// handler receives the mutex that is supposed to be held (nil when
+// none is known for the receiver) and may probe it. Like verifAt the
+// hook carries no claim about what the surrounding code did.
+var VerifGuardHook func(point string, mu *sync.Mutex)
+
+// verifOwners maps a limit tracker (which has no reference to its
+// Queue or Deque) to the mutex of the structure that owns it. It is
+// only populated while a handler is installed.
+var verifOwners sync.Map
+
+func verifGuardOwner(obj any, mu *sync.Mutex) {
+	if VerifGuardHook != nil {
+		verifOwners.Store(obj, mu)
+	}
+}
+
+func verifGuard(point string, key any) {
+	h := VerifGuardHook
+	if h == nil {
+		return
+	}
+	if mu, ok := key.(*sync.Mutex); ok {
+		h(point, mu)
+		return
+	}
+	if mu, ok := verifOwners.Load(key); ok {
+		h(point, mu.(*sync.Mutex))
+		return
+	}
+	h(point, nil)
 }
